@@ -280,6 +280,28 @@ CHECKS = {
               "with N <= 64 (quick), 1..5 with N <= 80 (thorough); shift denominators 1,2,3,4,5,8; subgroups sampled. "
               "IterMesh and GeneralizedRegularGridPoints are not covered; no Apalache proof."),
         design="5/C09 and 11.2"),
+    "C16": dict(
+        text=("SaveLoad.tla models save() then load() as a step machine with one action per step of the code; each loaded "
+              "field carries a source token (saved yaml, ambient FORCE_SETS / FORCE_CONSTANTS / force_constants.hdf5 / BORN, "
+              "file arguments, nac_params, unitcell, or 'produced'). Requirement invariants from the property and the "
+              "documentation of save(): what was asked to be written comes back with the same dataset type, forces, energies, "
+              "force-constant layout up to the requested conversion, NAC method and factor, calculator with its default units; "
+              "reloaded force constants derive from the saved file only; ambient files never replace saved data; loading never "
+              "fails on a written file. TLC checks this exhaustively over object variants x settings x compression x arguments "
+              "x ambient files, and in SaveLoadTrace evaluates the same requirement on every real save+load (crystals with "
+              "extended symbols, magnetic moments, custom masses, generic lattices, large/small values; each candidate source "
+              "carries different numbers and the harness classifies the reloaded field against them; the logged outcome must "
+              "equal the machine's). TextCodec.tla states the printf format of every numeric line kind and the reader's "
+              "tokenisation; TLC checks that written lines read back to the values rounded to the written decimals over "
+              "1e-9..1.2e6 and checks the real files character by character. DatasetConv.tla decides that type-1 to type-2 "
+              "conversion is lossless and hdf5 an exact container; BornCodec.tla decides that BORN storage plus symmetry "
+              "expansion is the identity on equivariant tensor fields."),
+        note=("Trusted: TLC/SANY, numpy, PyYAML's node line marks, the harness projection (sources identified by nearest "
+              "content; error classes 0.5 unit of the last written decimal + 2 ulp). Bounds: four small crystals plus a P4 "
+              "cell; calculators none/qe/vasp; no symfc (type-2 datasets cannot produce force constants). Recorded "
+              "deviations not counted against C16: load docstring priority order differs from the code (D16); one NAC tensor "
+              "written alone is not loadable."),
+        design="5/C16 and 11.2"),
 }
 
 NOT_BUILT = "check under construction in this round; not yet claimed"
